@@ -22,6 +22,8 @@ UNARY = ["reciprocal", "positive", "negative", "exp", "exp2", "exp_m1", "log", "
          "floor", "rint", "trunc", "i0", "sinc", "acos", "asin", "atan", "cos", "deg2rad", "degrees", "rad2deg", "radians",
          "sin", "tan", "spacing"]
 NEED_OPS = {"i0", "sinc", "acos", "asin", "atan", "cos", "deg2rad", "degrees", "rad2deg", "radians", "sin", "tan"}
+ZERO_SIGN = {"abs", "absolute", "fabs", "negative", "positive", "sqrt", "square", "floor", "ceil", "trunc", "fix", "sin", "sinh", "tan",
+             "tanh", "asin", "asinh", "atan", "atanh", "cbrt", "exp_m1", "log_1p", "deg2rad", "rad2deg", "degrees", "radians"}
 ZUNARY = ["negative", "positive", "absolute", "abs", "fabs", "square", "floor", "ceil", "trunc", "fix", "sign"]
 CLOSURES = ["map_log", "map_e_log", "filter_log", "filter_e_log", "filter_map_log", "filter_map_e_log", "for_each_log",
             "for_each_e_log", "into_iter"]
@@ -65,7 +67,10 @@ def _dy_agree(impl, model):
 
 def agree(case, impl, model):
     if case.startswith("ew1@"):
-        return vlib.table_agree(impl, model, 1)
+        # the sign of a zero result is judged for the functions whose definition fixes it (seeded change C05k:
+        # abs(-0.0) returned -0.0)
+        op = bytes.fromhex(case.split(" ")[1][1:]).decode()
+        return vlib.table_agree(impl, model, 1, zero_sign=op in ZERO_SIGN)
     if case.startswith("ew2@"):
         return vlib.table_agree(impl, model, 2)
     head = case.split(" ")[0]
